@@ -1,5 +1,6 @@
 """Contracts for easynetwork/lowlevel/api_sync/endpoints/stream.py — receive loops (C03, C10, C11) and the sender (C04)."""
 from contracts.c_stream import P
+from contracts._time import add_budget
 
 
 def register(R):
@@ -23,7 +24,7 @@ def register(R):
         ("consumer-inv-suspended-needs-more", f"implies(not isnone({K}), fn('S_kind', 'int', {K}.T) == 0)"),
         ("consumer-inv-no-side-buffer", f"implies(not isnone({K}), {BUF} == b'')"),
     ]
-    R.contract(
+    add_budget(loops=(1,), unless="self._eof_reached", c=R.contract(
         "_DataReceiverImpl.receive",
         params={"timeout": "xreal"}, result="obj",
         requires=[("deserializer-needs-input", "fn('S_kind', 'int', b'') == 0"),
@@ -68,20 +69,20 @@ def register(R):
         modifies=["self._eof_reached", "self.consumer._StreamDataConsumer__buffer", "self.consumer._StreamDataConsumer__consumer",
                   "ghost.IN", "ghost.recv_calls", "ghost.EOF", "ghost.io_errors", "ghost.now"],
         tags="C03 C10 C11",
-    )
+    ))
     register_buffered(R)
     R.module("easynetwork/lowlevel/api_sync/endpoints/stream.py")
     R.shape("_DataSenderImpl", cls="_DataSenderImpl", fields={"transport": "StreamWriteTransport", "producer": "StreamDataProducer"})
     chunks = ("(fn('S_chunks', 'bytesseq', packet) if isnone(self.producer._StreamDataProducer__protocol._StreamProtocol__converter) "
               "else fn('S_chunks', 'bytesseq', fn('K_dto', 'obj', packet)))")
-    R.contract(
+    add_budget(c=R.contract(
         "_DataSenderImpl.send",
         params={"packet": "obj", "timeout": "xreal"},
         ensures=[("wire-gets-exactly-the-packet-chunks-in-order", f"ghost.WIRE == old(ghost.WIRE) + flat({chunks})", "C04 C12")],
         raises={"OSError": [("only-a-prefix-was-written", "len(ghost.WIRE) >= len(old(ghost.WIRE))", "C04")]},
         modifies=["ghost.WIRE", "ghost.now"],
         tags="C04",
-    )
+    ))
 
 
 def register_buffered(R):
@@ -113,7 +114,7 @@ def register_buffered(R):
     p, p0 = PX(X), PX("U0")
     cons = [(f"consumer-inv-{i+1}", e, "C03 C10") for i, e in enumerate(inv)]
     latch = ("eof-latched-exactly-when-the-transport-reported-it", "self._eof_reached == ghost.EOF and implies(old(self._eof_reached), self._eof_reached)", "C03")
-    R.contract(
+    add_budget(loops=(1,), unless="self._eof_reached", c=R.contract(
         "_BufferedReceiverImpl.receive",
         params={"timeout": "xreal"}, result="obj",
         requires=[("deserializer-needs-input", "fn('S_kind', 'int', b'') == 0"), ("latch-mirrors-the-transport", "self._eof_reached == ghost.EOF"),
@@ -158,4 +159,4 @@ def register_buffered(R):
              f"{K}.T + {B}[{sp}:{sp} + {w} + result] == U0 + ghost.IN[len(old(ghost.IN)):]"),
         ]}},
         tags="C03 C10 C11",
-    )
+    ))
